@@ -34,7 +34,8 @@ fn rand_tx(rng: &mut SmallRng, u: &Universe, maxops: usize, invalid_pct: u32, un
             }
         } else if r < invalid_pct {
             ("ref", 0)
-        } else if r < 65 {
+        } else if r < (if spec.collide { 88 } else { 65 }) {
+            // (colliding universes: mostly live keys, so that their shared index page overflows)
             let v = match unique {
                 Some(ctr) => ctr.fetch_add(1, Ordering::SeqCst) as i64 + 1,
                 None => {
